@@ -530,6 +530,8 @@ var c15StructVariants = []struct {
 	{"struct ST(\n    int b,\n    bam f,\n)", false},
 	{"struct ST(\n    int a,\n    bam[] f,\n)", false},
 	{"struct ST(\n    int a,\n    string f,\n)", false},
+	{"struct INNER(\n    bam g,\n)\n\nstruct ST(\n    int a,\n    INNER f,\n)", false}, // the member became a struct
+	{"filetype INNER;\n\nstruct ST(\n    int a,\n    INNER f,\n)", true},                    // another file type name
 }
 
 // H_C15_structDefs(v, arr): the struct type ST passed from MAKE to USE (as ST
@@ -807,4 +809,100 @@ func H_C17_assignability(i, j int) {
 			verifAssert(got == base, "C17: a typed map is assignable from another exactly when its value type is assignable from the other's")
 		}
 	}
+}
+
+// ---- C15: which callable an aliased call runs ----
+
+var c15Callees = [3]string{"PLAIN", "CHUNKED", "FLOATY"}
+
+func c15CalleeProgram(first, second int) string {
+	return `
+stage PLAIN(
+    in  int x,
+    out int y,
+    src comp "p",
+)
+
+stage CHUNKED(
+    in  int x,
+    out int y,
+    src comp "p",
+) split (
+)
+
+stage FLOATY(
+    in  int   x,
+    out float y,
+    src comp  "p",
+)
+
+stage USE(
+    in  float a,
+    in  float b,
+    out int   r,
+    src comp  "u",
+)
+
+pipeline TOP(
+    out int r,
+)
+{
+    call ` + c15Callees[first] + ` as FIRST(
+        x = 1,
+    )
+
+    call ` + c15Callees[second] + ` as SECOND(
+        x = 2,
+    )
+
+    call USE(
+        a = FIRST.y,
+        b = SECOND.y,
+    )
+
+    return (
+        r = USE.r,
+    )
+}
+
+call TOP()
+`
+}
+
+// H_C15_callees(old, new): two aliased calls FIRST and SECOND each run one of
+// three stages which differ in what would run (splitting or not, output type);
+// old and new encode the pair of stages before and after the edit (3 x 3
+// each).  Names, bindings and modifiers of the calls never change.
+//
+//	C15: re-attach is accepted exactly when both calls still run the stage
+//	     they ran before - also when the stage a call is switched to is run,
+//	     unchanged, by the other call.
+func H_C15_callees(old, neu int) {
+	oldAst := c15Compile(c15CalleeProgram(old/3, old%3))
+	newAst := c15Compile(c15CalleeProgram(neu/3, neu%3))
+	got := newAst.EquivalentCall(oldAst)
+	verifCover("aliased calls compared")
+	if old == neu {
+		verifAssert(got, "C15: re-attach succeeds for an unchanged program")
+	} else {
+		verifAssert(!got, "C15: re-attach is refused when an aliased call was switched to another stage (what would run changed), whatever the other calls run")
+	}
+	verifAssert(oldAst.EquivalentCall(newAst) == got, "C15: the comparison is symmetric")
+}
+
+// H_C15_structKinds(arr): under one name, INNER, the member type of ST is a
+// struct in one invocation and a file type in the other.
+//
+//	C15: re-attach is refused in both directions (a parameter type changed).
+func H_C15_structKinds(arr int) {
+	t := "ST"
+	if arr != 0 {
+		t = "ST[]"
+	}
+	n := len(c15StructVariants)
+	a := c15Compile(c15RealProgram(t, c15StructVariants[n-2].def))
+	b := c15Compile(c15RealProgram(t, c15StructVariants[n-1].def))
+	verifCover("a type name changing its kind compared")
+	verifAssert(!a.EquivalentCall(b), "C15: re-attach is refused when a type name that was a file type now names a struct")
+	verifAssert(!b.EquivalentCall(a), "C15: re-attach is refused when a type name that was a struct now names a file type")
 }
